@@ -2,7 +2,12 @@
 
 package crypki
 
-import "google.golang.org/grpc"
+import (
+	"time"
+
+	"github.com/theparanoids/ysshra/internal/backoff"
+	"google.golang.org/grpc"
+)
 
 // VerifWithDialOptions returns a copy of the signer whose gRPC dial options are
 // followed by opts. The simulation harness (build tag "verif") uses it to route
@@ -14,4 +19,11 @@ func (s *Signer) VerifWithDialOptions(opts ...grpc.DialOption) *Signer {
 		dialOptions: append(append([]grpc.DialOption(nil), s.dialOptions...), opts...),
 	}
 	return c
+}
+
+// VerifBackoff evaluates the retry back-off (internal/backoff, not importable
+// from outside this module) for an arbitrary configuration and attempt number.
+func VerifBackoff(base, max time.Duration, multiplier, jitter float64, attempt uint) time.Duration {
+	c := backoff.Config{BaseDelay: base, Multiplier: multiplier, MaxDelay: max, Jitter: jitter}
+	return c.Backoff(attempt)
 }
